@@ -5,6 +5,7 @@ import (
 	"bytes"
 	"fmt"
 	"image/color"
+	"math"
 	"testing"
 
 	"github.com/reactivego/ivg"
@@ -61,10 +62,15 @@ type automaton struct {
 	delivered []ops.Op  // successful ops since the last Reset
 	vb        ivg.ViewBox
 	pal       [64]color.RGBA
+	// what the read-back accessors must report while no violation occurred
+	cSel, nSel uint8
+	lod0, lod1 float32
 }
 
+var inf32 = float32(math.Inf(1))
+
 func newAutomaton() *automaton {
-	return &automaton{firstErr: -1, lastReset: -1, vb: ivg.DefaultViewBox, pal: ivg.DefaultPalette}
+	return &automaton{firstErr: -1, lastReset: -1, vb: ivg.DefaultViewBox, pal: ivg.DefaultPalette, lod1: inf32}
 }
 
 func (a *automaton) step(i int, c Call) {
@@ -73,6 +79,7 @@ func (a *automaton) step(i int, c Call) {
 		a.st, a.err, a.alt, a.firstErr, a.lastReset = stStyling, vNone, vNone, -1, i
 		a.delivered = a.delivered[:0]
 		a.vb, a.pal = c.Op.ViewBox(), c.Op.Palette()
+		a.cSel, a.nSel, a.lod0, a.lod1 = 0, 0, 0, inf32
 		return
 	case "read", "bytes":
 		if a.st == stInitial && (c.What == "read" || a.err == vNone) {
@@ -112,6 +119,22 @@ func (a *automaton) step(i int, c Call) {
 		if d.K == ops.SetCSel || d.K == ops.SetNSel {
 			d.Sel &= 0x3f
 		}
+		switch o.K {
+		case ops.SetCSel:
+			a.cSel = d.Sel
+		case ops.SetNSel:
+			a.nSel = d.Sel
+		case ops.SetCReg:
+			if o.Incr {
+				a.cSel = (a.cSel + 1) & 0x3f
+			}
+		case ops.SetNReg:
+			if o.Incr {
+				a.nSel = (a.nSel + 1) & 0x3f
+			}
+		case ops.SetLOD:
+			a.lod0, a.lod1 = o.Arg(0), o.Arg(1)
+		}
 		a.delivered = append(a.delivered, d)
 		if o.K == ops.StartPath {
 			a.st = stDrawing
@@ -131,14 +154,21 @@ func (a *automaton) step(i int, c Call) {
 
 // ---------------------------------------------------------------- running a history on the real Encoder
 
+type readBack struct {
+	cSel, nSel uint8
+	lod0, lod1 float32
+}
+
+var lastRead readBack
+
 func apply(e *encode.Encoder, c Call) (b []byte, err error, wasBytes bool) {
 	switch c.What {
 	case "reset":
 		e.Reset(c.Op.ViewBox(), c.Op.Palette())
 	case "read":
-		e.CSel()
-		e.NSel()
-		e.LOD()
+		lastRead.cSel = e.CSel()
+		lastRead.nSel = e.NSel()
+		lastRead.lod0, lastRead.lod1 = e.LOD()
 	case "bytes":
 		b, err = e.Bytes()
 		return append([]byte{}, b...), err, true
@@ -154,6 +184,16 @@ func checkHistory(c Case) error {
 	for i, call := range c.Calls {
 		b, err, was := apply(&enc, call)
 		a.step(i, call)
+		if call.What == "read" && a.err == vNone {
+			want := readBack{a.cSel, a.nSel, a.lod0, a.lod1}
+			if lastRead != want {
+				key := "c10/read-back"
+				if a.lastReset < 0 {
+					key = "c10/zero-value-read-back"
+				}
+				return harness.Violatef(key, "after call %d the Encoder reports CSEL=%d NSEL=%d LOD=(%v,%v); the calls since the last Reset (zero value = Reset with the default metadata) give CSEL=%d NSEL=%d LOD=(%v,%v)", i, lastRead.cSel, lastRead.nSel, lastRead.lod0, lastRead.lod1, want.cSel, want.nSel, want.lod0, want.lod1)
+			}
+		}
 		if was {
 			if (err != nil) != (a.err != vNone) {
 				return harness.Violatef("c10/verdict", "after call %d (%s) Bytes error = %v, specification automaton says violation = %s", i, describe(call), err, violationNames[a.err])
